@@ -4,6 +4,7 @@
            playback_rate.rs, clock/clock_speed.rs, tween/tweenable.rs (f32/f64 interpolate)
 -/
 import KiraModel.Num
+import KiraModel.GenFn
 
 namespace K
 
@@ -25,12 +26,6 @@ def lerp64 (a b amount : α) : α := a + (b - a) * amount
 /-- mirrors: tweenable.rs `impl Tweenable for f32` (`a + (b - a) * amount as f32`) -/
 def lerp32 (a b amount : α) : α :=
   KOps.r32 (a + KOps.r32 (KOps.r32 (b - a) * KOps.r32 amount))
-
-/-- A stereo frame (`f32` components). mirrors: frame.rs::Frame -/
-structure Frame (α : Type) where
-  left : α
-  right : α
-deriving Repr
 
 namespace Frame
 def zero : Frame α := ⟨(0.0 : α), (0.0 : α)⟩
@@ -59,13 +54,6 @@ end Frame
 
 /-- mirrors: semitones.rs `impl From<Semitones> for PlaybackRate` -/
 def semitonesToRate (s : α) : α := KOps.pow (2.0 : α) (s / (12.0 : α))
-
-/-- mirrors: clock/clock_speed.rs::ClockSpeed -/
-inductive ClockSpeed (α : Type) where
-  | secondsPerTick (v : α)
-  | ticksPerSecond (v : α)
-  | ticksPerMinute (v : α)
-deriving Repr
 
 namespace ClockSpeed
 def asSecondsPerTick : ClockSpeed α → α
